@@ -768,8 +768,7 @@ pub fn check(cfg: &CheckCfg) -> i32 {
 /// contains a type-alias cycle with no type constructor in between.
 fn known_alias_cycle(agg: &mut Agg, findings: &[KnownFinding], r: &Run, how: &str) -> bool {
     let Some(k) = findings.iter().find(|k| k.status == "open" && k.property == "C04" && k.signature.get("kind").and_then(|x| x.as_str()) == Some("noncontractive-alias-cycle")) else { return false };
-    let fs = crate::exec::final_fs(r);
-    match crate::edits::noncontractive_alias_cycle(&fs) {
+    match crate::exec::any_view_alias_cycle(r) {
         Some((file, name)) => {
             let line = format!("KNOWN-FINDING: property=C04 build {} on a project with the constructor-free type-alias cycle through {}::{} (e.g. run {}) [{}]", how, file, name, r.run_index, k.id);
             agg.kf_lines.entry(k.id.clone()).or_insert((line, 0)).1 += 1;
